@@ -476,9 +476,18 @@ def reorder_nodes(graph, mapping):
     Returns:
         (nx.Graph)
     """
-    return nx.relabel_nodes(
+    relabeled = nx.relabel_nodes(
         graph, mapping={u: v for v, u in mapping.items()}, copy=True
     )
+
+    # Nodes are added in label order, as functions that combine graphs
+    # (e.g. union) use the order in which the nodes were inserted
+    new_graph = relabeled.__class__()
+    new_graph.graph.update(relabeled.graph)
+    new_graph.add_nodes_from(sorted(relabeled.nodes(data=True)))
+    new_graph.add_edges_from(relabeled.edges(data=True))
+
+    return new_graph
 
 
 def get_graph_no_active_edges(graph):
